@@ -217,6 +217,21 @@ CHECKS['C03'] = dict(
     technique='Coq proof (arithmetic over box layouts, list induction) + HTTP differential correspondence + independent box walker oracle',
     design='C04-C03-C10')
 
+CHECKS['C11'] = dict(
+    text='Theorems (unbounded over all 16-byte key ids, all seeds, all header bytes, all stores and requests): C11_guid_rfc4122 / '
+         'C11_guid_involutive (the PlayReady GUID is the RFC 4122 little-endian byte swap and its own inverse), C11_content_key_shape / '
+         'C11_content_key_seed_prefix (the derived key is 16 bytes, a function of the first 30 seed bytes only; SHA-256 is a section '
+         'parameter), C11_pro_roundtrip (parse_pro (generate_pro h) = one type-1 record carrying exactly h), C11_base64url (decode '
+         '(encode b) = b with an alphabet free of + / =), C11_clearkey_exact / C11_clearkey_once (the ClearKey response holds exactly the '
+         'stored keys for the known requested ids, each once). Tied to /repo by differential runs of PlayReady.hex_to_le_guid / '
+         'generate_content_key (XOR fold) / generate_pro / parse_pro and POST /clearkey against the extracted model. Oracles from the '
+         'specifications decide the rest on the real code: uuid.bytes_le, hashlib key-seed algorithm, own PRO parser + WRMHEADER XML '
+         '(key ids, LA_URL, AES-ECB checksums), manifest ContentProtection elements vs DRM selection and init-segment pssh.',
+    note=TB + 'SHA-256, AES and Jinja rendering of the WRMHEADER are executed, not modelled; Marlin has no key data to check.',
+    technique='Coq proof (byte-list arithmetic, base64 sextet lemmas, list induction over the key store) + differential correspondence + '
+              'specification oracles (RFC 4122, key-seed algorithm, PRO layout, RFC 4648)',
+    design='C11')
+
 NOT_YET = {
 }
 
